@@ -74,6 +74,7 @@ def cases(tier):
     if batch:
         yield {"kind": "eval", "trees": batch}
     yield {"kind": "mutual"}
+    yield {"kind": "near"}
     for eps in (None, "0.125", "0.0009765625"):
         yield {"kind": "boundary", "eps": eps}
     for prec in (None, "2", "6"):
@@ -253,7 +254,8 @@ def check_boundary(r, case):
 
 PRINT_EXPRS = ["(+ (f) 2)", "(* (g ?x) 0.5)", "(- (f) (g ?x))", "(/ (f) 4)", "(>= (g ?x) 0.125)", "(<= (* 2.5 (f)) -3)",
                "(increase (f) 1.75)", "(assign (g ?x) (+ (g ?x) 0.0001))", "(= (f) 12345.678)", "(> (- 0 (f)) 1000000)",
-               "(decrease (f) (* (g ?x) (g ?x)))", "(< (+ (f) 0.25) (/ (g ?x) 3))"]
+               "(decrease (f) (* (g ?x) (g ?x)))", "(< (+ (f) 0.25) (/ (g ?x) 3))", "(<= (f) 2.99996)",
+               "(increase (f) 0.99997)", "(> (g ?x) -1.99998)", "(>= (* (f) 0.99996) 1.00004)"]
 
 
 def check_print(r, case):
@@ -328,7 +330,41 @@ def check_mutual(r, case):
                 return
 
 
+NEAR = ["1.00001", "1.00004", "1.00002", "0.99998", "1", "1.00001"]
+
+
+def check_near(r, case):
+    """conditions / effects whose constants differ only beyond the print precision, evaluated one after the other in ONE
+    process (each must be evaluated with its own constant)"""
+    r.nontrivial = True
+    for op_ in (">", "<"):
+        for k in NEAR:
+            D = guard(parse_domain, HDR + f"(:action a :parameters (?x - t1 ?y - t1) :precondition (and ({op_} (f) {k})) "
+                                          f":effect (and (increase (out) {k}))))")
+            for fv in ("1.00003", "1", "0.99999"):
+                ptxt = (f"(define (problem p) (:domain c12) (:objects o1 o2 - t1) (:init (= (f) {fv}) (= (out) 0) "
+                        f"(= (g o1) 0) (= (g o2) 0)) (:goal (and)))")
+
+                def q():
+                    from pddl_plus_parser.multi_agent.common import create_initial_state
+                    P = parse_problem(ptxt, D)
+                    op = operator(D, "a", ["o1", "o2"], P.objects)
+                    s0 = create_initial_state(P)
+                    return [op.is_applicable(s0), observe_state(op.apply(s0, skip_validation=True)).fluents[("out",)]]
+                got = guard(q)
+                r.count("transitions")
+                r.count("states")
+                want_app = compare(op_, Fraction(fv), Fraction(k), Fraction(1, 10000))
+                ok = not isinstance(got, Raised) and got[0] is want_app and close(got[1], Fraction(k))
+                if not ok:
+                    r.fail("near-constants", f"({op_} (f) {k}) at f={fv} / (increase (out) {k}) from 0: {got}, expected "
+                           f"[{want_app}, {k}] (evaluated after conditions whose constants differ in the 5th decimal)",
+                           [want_app, k], str(got), tags=["near"])
+                    return
+
+
 def check_case(case):
     r = CaseResult()
-    {"eval": check_eval, "boundary": check_boundary, "print": check_print, "mutual": check_mutual}[case["kind"]](r, case)
+    {"eval": check_eval, "boundary": check_boundary, "print": check_print, "mutual": check_mutual,
+     "near": check_near}[case["kind"]](r, case)
     return r
